@@ -63,7 +63,7 @@ class Result:
         self.letters = collections.Counter()
 
 
-def check(func, classify, spec, start, accepting, erase=(), buffers=None, max_states=200000):
+def check(func, classify, spec, start, accepting, erase=(), buffers=None, max_states=200000, loop_letters=None):
     """classify(stmt) -> None | letter | tuple of letters, or ('@init', buffer, letters) / ('@append', buffer, letter) /
     ('@flush', buffer) for buffer statements.  `buffers` maps a buffer name to the AST If nodes whose test selects the
     flush (the branch containing the flush is taken exactly in COMMIT mode)."""
@@ -118,9 +118,12 @@ def check(func, classify, spec, start, accepting, erase=(), buffers=None, max_st
                 vals = {branch if mode[1] == "COMMIT" else (not branch)}
             else:
                 vals = eval_test(n.ast.test, fl)
+            head = ()
+            if loop_letters and n.kind == "while" and id(n.ast) in loop_letters:
+                head = (loop_letters[id(n.ast)],)
             for s, lab in n.succ:
                 if isinstance(lab, tuple) and lab[0] == "test" and lab[2] in vals:
-                    succs.append(((), s, fl, mode))
+                    succs.append((head, s, fl, mode))
         elif n.kind == "stmt" and isinstance(n.ast, ast.Assert):
             for s, lab in n.succ:
                 if isinstance(lab, tuple) and lab[2] is True:
